@@ -55,6 +55,21 @@ def parse_kv(line):
     return flat
 
 
+
+def r10_const_generic(text, impl_header, rules):
+    """R10: the const-generic block expression `{ (Self::BITS / usize::BITS) as usize }` (integral64.rs) is
+    evaluated for the impl's Self type: inside verus! arithmetic in const position is spec arithmetic
+    and cannot be const-evaluated.  Self::BITS is the inherent u32 constant of the integer type."""
+    m = re.search(r'for\s+(usize|u64|u128|u32)\b', impl_header or '')
+    pat = re.compile(r'\{\s*\(\s*Self::BITS\s*/\s*usize::BITS\s*\)\s*as\s+usize\s*\}')
+    if not pat.search(text):
+        return text
+    if not m:
+        raise Unsupported('R10: const-generic expression outside an integer impl')
+    bits = {'usize': 64, 'u64': 64, 'u128': 128, 'u32': 32}[m.group(1)]
+    rules.append('R10')
+    return pat.sub(str(bits // 64), text)
+
 GHOST_OK = re.compile(r'^\s*(proof\s*\{|assert\b|assert\(|invariant\b|invariant_except_break\b|decreases\b|ensures\b|\}|//|$)')
 
 
@@ -284,6 +299,13 @@ class Extractor:
                 raise LostAnchor('%s: fn %s: type parameter %s not found' % (rel, kv['fn'], a))
             sig = sig2
             rules.append('R1-inst(%s:=%s)' % (a, b))
+        if 'selfty' in kv:
+            # R8: `impl Trait for &'a X { fn f(self) }` re-homed on X: the receiver type is written out
+            sig2 = re.sub(r'\(\s*self\b', '(self: ' + kv['selfty'], sig, count=1)
+            if sig2 == sig:
+                raise LostAnchor('%s: fn %s: no by-value self receiver' % (rel, kv['fn']))
+            sig = sig2
+            rules.append('R8-self')
         if 'rename' in kv:
             sig = re.sub(r'\bfn\s+' + re.escape(kv['fn']) + r'\b', 'fn ' + kv['rename'], sig, count=1)
             rules.append('rename')
@@ -334,6 +356,22 @@ class Extractor:
                     body = body[:m.start() + mm.end()] + text.strip() + ': ' + body[m.start() + mm.end():]
             rules.append('R3')
         body = self.rewrite_body(body, rules, 'R' if kv.get('r6') == 'always' else self.mode)
+        for cname in [c for c in kv.get('inlineconst', '').split(',') if c]:
+            # R11: an associated const of the impl'd type is inlined at its use sites (definition copied
+            # from the repository) so that its arithmetic is checked under the caller's preconditions
+            defs = []
+            for h2 in src.find_impl(kv['impl']):
+                mm = re.search(r'(?m)^\s*(?:pub\s+)?const\s+' + re.escape(cname) + r'\s*:\s*[^=;]+=\s*([^;]+);', src.masked[h2[2]:h2[3]])
+                if mm:
+                    defs.append(src.text[h2[2] + mm.start(1):h2[2] + mm.end(1)].strip())
+            if len(defs) != 1:
+                raise LostAnchor('%s: const %s: %d definitions' % (rel, cname, len(defs)))
+            body2 = re.sub(r'\bSelf::' + re.escape(cname) + r'\b', '(' + defs[0] + ')', body)
+            if body2 != body:
+                rules.append('R11(%s)' % cname)
+            body = body2
+        sig = r10_const_generic(sig, hdr, rules)
+        body = r10_const_generic(body, hdr, rules)
         # calls to a generic helper that was instantiated per type: follow the instantiation
         for a, b in kv.get('callrename', []):
             body2 = re.sub(r'\b' + re.escape(a) + r'\b', b, body)
@@ -363,6 +401,9 @@ class Extractor:
             if 'rehome' in kv:
                 header = kv['rehome']
                 rules.append('R8')
+                # associated types of the trait impl are written out (`Self::Item` -> its definition)
+                for m in re.finditer(r'(?m)^\s*type\s+(\w+)\s*=\s*([^;]+);', src.text[hopen:hclose]):
+                    text = re.sub(r'\bSelf::' + m.group(1) + r'\b', m.group(2).strip(), text)
             assoc = ''
             if kv.get('assoc', 'no') == 'yes':
                 for m in re.finditer(r'(?m)^\s*type\s+\w+\s*=\s*[^;]+;', src.masked[hopen:hclose]):
@@ -449,6 +490,44 @@ class Extractor:
                     self.check_ghost_only(g, item)
                 txt = self.extract_fn(kv, contract, ghosts, meta)
                 self.emit(out, linemap, txt, name, meta[-1]['id'])
+            elif s.startswith('//@implopen '):
+                kv = parse_kv(s)
+                src = self.src(kv['file'])
+                hits = src.find_impl(kv['impl'])
+                if len(hits) != 1:
+                    raise LostAnchor('%s: %d impls match `%s`' % (kv['file'], len(hits), kv['impl']))
+                hdr, hstart, hopen, hclose = hits[0]
+                header = src.text[hstart:hopen].rstrip()
+                body = ''
+                for m in re.finditer(r'(?m)^\s*(type\s+\w+\s*=\s*[^;]+;|const\s+\w+\s*:\s*[^;]+;)', src.masked[hopen:hclose]):
+                    seg = src.masked[hopen:hopen + m.start()]
+                    if seg.count('{') - seg.count('}') == 1:
+                        body += '    ' + src.text[hopen + m.start():hopen + m.end()].strip() + '\n'
+                meta.append(dict(id='%s::%s::<header>' % (kv['file'].split('/src/')[-1], hdr), file=kv['file'],
+                                 lines=[src.line_of(hstart), src.line_of(hopen)], sha256=hashlib.sha256((header + body).encode()).hexdigest(),
+                                 rules=['R1', 'R4'], mode=self.mode, contract_clauses=0))
+                body = r10_const_generic(body, hdr, meta[-1]['rules'])
+                self.emit(out, linemap, header + ' {\n' + body.rstrip('\n'), name, None)
+                i += 1
+            elif s.startswith('//@extractconst '):
+                kv = parse_kv(s)
+                src = self.src(kv['file'])
+                hits = src.find_impl(kv['impl'])
+                if not hits:
+                    raise LostAnchor('%s: no impl matching `%s`' % (kv['file'], kv['impl']))
+                hdr, hstart, hopen, hclose = hits[int(kv.get('nthimpl', 0))]
+                m = re.search(r'(?m)^\s*(?:pub\s+)?const\s+' + re.escape(kv['name']) + r'\s*:\s*[^;]+;', src.masked[hopen:hclose])
+                if not m:
+                    raise LostAnchor('%s: const %s not found' % (kv['file'], kv['name']))
+                txt = src.text[hopen + m.start():hopen + m.end()].strip()
+                meta.append(dict(id='%s::%s::const %s' % (kv['file'].split('/src/')[-1], hdr, kv['name']), file=kv['file'],
+                                 lines=[src.line_of(hopen + m.start()), src.line_of(hopen + m.end())],
+                                 sha256=hashlib.sha256(txt.encode()).hexdigest(), rules=['R1'], mode=self.mode, contract_clauses=0))
+                self.emit(out, linemap, '    pub ' + txt if not txt.startswith('pub') else '    ' + txt, name, meta[-1]['id'])
+                i += 1
+            elif s.startswith('//@implclose'):
+                self.emit(out, linemap, '}', name, None)
+                i += 1
             elif s.startswith('//@mode '):
                 # //@mode T|R : following single line only in that mode
                 want = s.split()[1]
